@@ -386,6 +386,6 @@ void harness_exhaustive(int shard, int nshards) {
             std::vector<uint8_t> e = {(uint8_t)kind, (uint8_t)inst, (uint8_t)(node >> 8), (uint8_t)node, (uint8_t)SM_MISPLACE_NC, (uint8_t)var, (uint8_t)sel};
             if (runExh(e)) return;
           } }
-        stats().exhaustive[std::string(topName(kind)) + "/full-instance-" + num(inst) + ": (positions x mutation kinds + composites x schema fields + composites x children x {move, copy} with N flag) x 3 variants"] = cnt;
+        if (shard == 0) stats().exhaustive[std::string(topName(kind)) + "/full-instance-" + num(inst) + ": (positions x mutation kinds + composites x schema fields + composites x children x {move, copy} with N flag) x 3 variants"] = cnt;
     }
 }
